@@ -15,7 +15,7 @@ from vfw.ctx import Mismatch
 
 PROPERTY = "C16"
 
-DISTURBERS = ["none", "class-with-clashing-state-ids", "sibling-with-async-listener", "other-driven-inside-callback", "sibling-other-start-value", "define-same-names", "drive-same-names", "second-instance", "subclass-new-event", "subclass-any", "define-other-signature-lambda", "drive-same-names-refusing"]
+DISTURBERS = ["none", "class-with-clashing-state-ids", "sibling-with-async-listener", "other-driven-inside-callback", "sibling-other-start-value", "define-same-names", "drive-same-names", "second-instance", "subclass-new-event", "subclass-any", "define-other-signature-lambda", "drive-same-names-refusing", "sibling-sends-my-event-object"]
 
 
 def make_A():
@@ -151,11 +151,11 @@ BOUNDS = {
     "quick": "machine A (3 states, guarded + fallback candidates, callbacks taking event arguments positionally and keyword-only) driven by 3 `go` events; before "
     "each of the first two events one disturber out of {none, define an unrelated class with A's qualified class and method names but other signatures, define and "
     "drive it, create and drive a second A (between A's events, and from inside one of A's own callbacks), create siblings with other start_value, define a subclass of A that adds an event on A's states, define a subclass using from_.any(), define a lambda-bearing "
-    "class}; optionally another machine over a model of the same class but other instance-level hooks created first; an instance of A created after all disturbances is checked as well; disturbers also: an unrelated class whose state ids equal A's guard/callback names, a sibling A with a coroutine listener; an unrelated class with A's name and equally declared states that refuses `go` (and an unknown event) in `a` and is driven; a sample of the 12x12 disturber pairs; a separate scenario: a class whose guard/action names are provided only by the model or a listener - what happens to an instance without a provider (today: InvalidDefinition) is the same whether it is the first instance of the class or follows good (driven) ones - compared with an identical fresh class - and good instances obey their own model's guard; A's trace, states, allowed events, argument binding and result compared with A alone.",
-    "thorough": "all 144 disturber pairs.",
+    "class}; optionally another machine over a model of the same class but other instance-level hooks created first; an instance of A created after all disturbances is checked as well; disturbers also: an unrelated class whose state ids equal A's guard/callback names, a sibling A with a coroutine listener; an unrelated class with A's name and equally declared states that refuses `go` (and an unknown event) in `a` and is driven; a sibling that is sent an event object taken from A's allowed_events; a sample of the 13x13 disturber pairs; a separate scenario: a class whose guard/action names are provided only by the model or a listener - what happens to an instance without a provider (today: InvalidDefinition) is the same whether it is the first instance of the class or follows good (driven) ones - compared with an identical fresh class - and good instances obey their own model's guard; A's trace, states, allowed events, argument binding and result compared with A alone.",
+    "thorough": "all 169 disturber pairs.",
 }
 OUTSIDE = "interleavings across OS threads; more than two disturbers per history; pickling (C17)"
-OBLIGATIONS = ["bad-instance-verdict-stable", "model-guard-decides", "same-names-refusing", "clashing-state-ids", "async-sibling", "driven-inside-callback", "sibling-start-values", "same-names-kwonly-first", "model-of-same-class-before", "undisturbed", "same-names-defined", "second-instance", "subclass-defined", "binding-checked"]
+OBLIGATIONS = ["sibling-sent-event-object", "bad-instance-verdict-stable", "model-guard-decides", "same-names-refusing", "clashing-state-ids", "async-sibling", "driven-inside-callback", "sibling-start-values", "same-names-kwonly-first", "model-of-same-class-before", "undisturbed", "same-names-defined", "second-instance", "subclass-defined", "binding-checked"]
 ASSUMPTIONS = [
     "the library's process-wide signature cache is emptied (through its own clear_cache hook, when present) at the start of every path, so that a path is a complete history",
     "A's expected behaviour is a table (A alone); comparing with a re-run would share the caches under test",
@@ -314,6 +314,7 @@ def run(ctx, params):
     for k in range(params["steps"]):
         d = DISTURBERS[params["d1"] if k == 0 else params["d2"] if k == 1 else 0]
         disturb.pending_inner = None
+        disturb.subject = sm
         disturb(ctx, d, A, done)
         if disturb.pending_inner is not None:
             sm.inner = disturb.pending_inner
@@ -451,6 +452,20 @@ def disturb(ctx, d, A, done):
         if r.current_state.id != "c":
             raise Mismatch("same-named-class-broken", f"after back: {r.current_state.id}")
         ctx.cover("same-names-refusing")
+        return
+    if d == "sibling-sends-my-event-object":
+        # a sibling is sent an event OBJECT obtained from the machine under test (sm.allowed_events / sm.events):
+        # the sibling moves, the machine the object was taken from does not
+        subject = disturb.subject
+        before = subject.current_state.id
+        evs = [e for e in subject.allowed_events if str(e) == "go"] or [e for e in subject.events if str(e) == "go"]
+        sib = A()
+        sib.vals["ok"] = True
+        sib.send(evs[0], 5, flag="sib")
+        if sib.current_state.id != "b" or subject.current_state.id != before:
+            raise Mismatch("event-object-drove-the-instance-it-was-taken-from", f"sibling.send(<go taken from A's allowed_events>): sibling in {sib.current_state.id} (expected b), A moved from {before} to {subject.current_state.id}")
+        del subject.trace[:]
+        ctx.cover("sibling-sent-event-object")
         return
     if d == "second-instance":
         other = A()
